@@ -505,6 +505,36 @@ theorem Buffered.all_spec (p : ChunkParams) (hmm : p.min ≤ p.max) (hmax : 0 < 
       have := ih c' n5 (by rw [n3, List.length_drop]; omega)
       rw [this, n3, n4]
 
+/-- `Advance(n)` drops exactly `n` bytes of what was still to be chunked and moves the position by `n` -/
+theorem Buffered.advance_spec (c : Buffered) (n : Nat) (hinv : c.inv) :
+    (c.advance n).rem = c.rem.drop n ∧ (c.advance n).start = c.start + n ∧ (c.advance n).inv := by
+  unfold Buffered.advance
+  by_cases h : n ≤ c.buf.length
+  · rw [if_pos h]
+    refine ⟨?_, rfl, hinv⟩
+    simp only [Buffered.rem]
+    rw [List.drop_append_of_le_length h]
+  · rw [if_neg h]
+    refine ⟨?_, rfl, ?_⟩
+    · simp only [Buffered.rem, List.nil_append]
+      rw [List.drop_append]
+      have : List.drop n c.buf = [] := List.drop_eq_nil_of_le (by omega)
+      rw [this, List.nil_append]
+    · intro he
+      have := hinv he
+      simp only [this, List.drop_nil]
+
+/-- after `Advance(n)` the chunker behaves as if the stream started `n` bytes further on: the
+    chunks that follow are the single-stream chunks of the remaining data, at shifted positions
+    (what the parallel chunker's null-chunk fast-forward relies on) -/
+theorem Buffered.all_after_advance (p : ChunkParams) (hmm : p.min ≤ p.max) (hmax : 0 < p.max)
+    (hw : winSize ≤ p.max) (c : Buffered) (n : Nat) (hinv : c.inv) :
+    Buffered.all p ((c.rem.drop n).length + 1) (c.advance n) =
+      chunkAllFrom (c.start + n) (chunkLens p (c.rem.drop n)) := by
+  obtain ⟨h1, h2, h3⟩ := Buffered.advance_spec c n hinv
+  have := Buffered.all_spec p hmm hmax hw ((c.rem.drop n).length + 1) (c.advance n) h3 (by rw [h1]; omega)
+  rw [this, h1, h2]
+
 /-- FIX: needs `winSize ≤ p.max` (implied by `ChunkParams.valid`): otherwise the refilled buffer
     (≥ `max` bytes only) may be shorter than the hash window. -/
 theorem buffered_eq_chunkAll (p : ChunkParams) (data : Bytes) (frags : List Nat)
